@@ -2,7 +2,7 @@
 import numpy as np
 from hypothesis import strategies as st
 
-from ..core import Violation, HarnessError, require, canon
+from ..core import Violation, HarnessError, require, canon, known_ids
 from ..strategies import crystals as cs, vacancy as vs, data as dt
 
 ID = "C06"
@@ -59,6 +59,14 @@ def check(case):
         require(ok, lambda: "tracer identities violated: |Lsv+L0vv|/|L0vv| = %.3e, |L1vv|/|L0vv| = %.3e (refined mesh: %s): Lsv %s L0vv %s L1vv %s"
                 % (e1, e2, r8, Lsv.tolist(), L0vv.tolist(), L1vv.tolist()))
         extra.append("integration_limited")
+    if vs.has_originstates(calc) and "R11" in known_ids("known"):
+        # the identities above hold on crystals with origin states, but Lss itself is wrong there (known finding R11, reported
+        # under C01): the bound 0 <= Lss <= L0vv is not asserted in that region
+        classes = cs.describe(crys) + vs.describe(calc) + extra + ["Lss_bound_excluded_R11"]
+        bV = np.array(case["eneV"]) / case["kT"] - np.log(case["preV"])
+        bT = np.array(case["eneT0"]) / case["kT"] - np.log(case["preT0"])
+        nt = (len(sl) >= 2 and np.ptp(bV) > 1e-6) or (len(jn) >= 2 and np.ptp(bT) > 1e-6)
+        return {"key": canon([vs.setup_key(case["setup"]), case["preV"], case["eneV"], case["preT0"], case["eneT0"], case["kT"]]), "nontrivial": bool(nt), "classes": classes}
     Ls = 0.5 * (Lss + Lss.T)
     lo = np.linalg.eigvalsh(Ls).min() / scale
     hi = np.linalg.eigvalsh(0.5 * (L0vv + L0vv.T) - Ls).min() / scale
